@@ -199,12 +199,30 @@ func childSessionStress(a []string) string {
 			if len(a) > 3 && a[3] == "same" { // every goroutine asks for the same service
 				name = names[1]
 			}
+			// some requests name a service that is not registered (by name, or by identifier in an object
+			// reference): they are refused, and the requests for registered services go on succeeding
+			if n > 1 && g > 0 && r.Chance(20) {
+				name = "?unknown"
+			}
 			wg.Add(1)
 			go func(g int, name string) {
 				defer wg.Done()
 				<-start
 				var proxy bus.Proxy
 				var err error
+				if name == "?unknown" {
+					if g%2 == 1 {
+						ref := refs[names[1]]
+						ref.ServiceID = 4000 + uint32(g)
+						_, err = sess.Object(ref)
+					} else {
+						_, err = sess.Proxy(fmt.Sprintf("NoSuchService%d", g), 1)
+					}
+					if err == nil {
+						errs <- "unknown-service: request accepted"
+					}
+					return
+				}
 				if ref, ok := refs[name]; ok && g%2 == 1 {
 					// an object request: the reference names the service by its id
 					proxy, err = sess.Object(ref)
